@@ -173,6 +173,7 @@ table_read_offset_array(
     PyArrayObject *array = NULL;
     npy_intp *shape;
     uint64_t *data;
+    size_t j;
 
     array
         = (PyArrayObject *) PyArray_FROMANY(input, NPY_UINT64, 1, 1, NPY_ARRAY_IN_ARRAY);
@@ -197,6 +198,17 @@ table_read_offset_array(
     if (data[*num_rows] != (uint64_t) length) {
         PyErr_SetString(PyExc_ValueError, "Bad offset column encoding");
         goto out;
+    }
+    /* Reject malformed offsets here, before the caller clears the table */
+    if (data[0] != 0) {
+        PyErr_SetString(PyExc_ValueError, "Bad offset column encoding");
+        goto out;
+    }
+    for (j = 0; j < *num_rows; j++) {
+        if (data[j] > data[j + 1]) {
+            PyErr_SetString(PyExc_ValueError, "Bad offset column encoding");
+            goto out;
+        }
     }
     ret = array;
 out:
